@@ -70,6 +70,32 @@ def inject(rng, lines):
         if ep and pr:
             new = L[:ep[0]] + L[ep[0] + 1:]
             out.append(("unrestored-sp", new, ("overwrite-callee-saved-register", {pr[0]}, "sp")))
+    # 3b: saved registers restored from each other's slots; a saved register left holding the
+    #     entry value of *another* register (frame-pointer idiom without saving it, or a copy)
+    for (a, b) in fns:
+        restores = [i for i in range(a, b) if L[i][1] == "restore" and L[i][0].split()[1].rstrip(",") != "ra"]
+        if len(restores) >= 2:
+            i, j = rng.sample(restores, 2)
+            ra_, rb_ = L[i][0].split()[1].rstrip(","), L[j][0].split()[1].rstrip(",")
+            new = list(L)
+            new[i] = (L[i][0].replace(ra_ + ",", rb_ + ",", 1), "injected")
+            new[j] = (L[j][0].replace(rb_ + ",", ra_ + ",", 1), "injected")
+            out.append(("swapped-restore", new, ("overwrite-callee-saved-register", {j}, ra_)))
+            out.append(("swapped-restore", new, ("overwrite-callee-saved-register", {i}, rb_)))
+        ep = [i for i in range(a, b) if L[i][1] == "epilogue-sp"]
+        pr = [i for i in range(a, b) if L[i][1] == "prologue-sp"]
+        if restores and ep and pr:
+            i = rng.choice(restores)
+            reg = L[i][0].split()[1].rstrip(",")
+            frame = -int(L[pr[0]][0].split(",")[-1])
+            others = [L[k][0].split()[1].rstrip(",") for k in restores if k != i]
+            forms = [f"addi {reg}, sp, {frame}"]              # = entry sp, offset 0
+            if others:
+                forms.append(f"mv {reg}, {rng.choice(others)}")   # = entry value of another saved register
+            form = rng.choice(forms)
+            # replace the restore of `reg` by the copy, placed after the other restores
+            new = L[:i] + L[i + 1:ep[0]] + [("    " + form, "injected")] + L[ep[0]:]
+            out.append(("holds-other-register", new, ("overwrite-callee-saved-register", {ep[0] - 1}, reg)))
     # 4: temporary read after a call
     calls = find(L, lambda t, tag: tag == "call")
     for i in rng.sample(calls, min(3, len(calls))):
